@@ -72,6 +72,73 @@ theorem idealExec_eq (cfg : Cfg) (hv : cfg.Valid) (a : Nat) : idealExec cfg a = 
     simp at this
     exact this
 
+/-! ## the effective exponent -/
+
+theorem goP_fst (cap p q : Nat) : ∀ f n d k, (goP cap p q f n d k).1 = go cap p q f n d := by
+  intro f
+  induction f with
+  | zero => intro n d k; simp [goP, go]
+  | succ f ih =>
+    intro n d k
+    unfold goP go
+    split
+    · rfl
+    · exact ih _ _ _
+
+theorem goP_snd (cap p q : Nat) : ∀ f n d k, k ≤ (goP cap p q f n d k).2 ∧ (goP cap p q f n d k).2 ≤ k + f := by
+  intro f
+  induction f with
+  | zero => intro n d k; simp [goP]
+  | succ f ih =>
+    intro n d k
+    unfold goP
+    split
+    · simp
+    · have := ih (n * p) (d * q) (k + 1)
+      omega
+
+theorem idealExecP_fst (cfg : Cfg) (a : Nat) : (idealExecP cfg a).1 = idealExec cfg a := by
+  unfold idealExecP idealExec
+  split
+  · rfl
+  · exact goP_fst _ _ _ _ _ _ _
+
+/-- the effective exponent never exceeds the exponent the code uses -/
+theorem effExp_le (cfg : Cfg) (a : Nat) : effExp cfg a ≤ expo a := by
+  unfold effExp idealExecP
+  split
+  · exact Nat.zero_le _
+  · have := (goP_snd cfg.capNs cfg.num cfg.den (expo a) cfg.initial 1 0).2
+    omega
+
+/-- the effective exponent stops at the first exponent at which the exact value has reached the cap: if it is smaller
+than the exponent of the attempt, the exact value IS the cap -/
+theorem goP_stopped (cap p q : Nat) : ∀ f n d k, (goP cap p q f n d k).2 < k + f → (goP cap p q f n d k).1 = cap := by
+  intro f
+  induction f with
+  | zero => intro n d k h; have := (goP_snd cap p q 0 n d k).1; omega
+  | succ f ih =>
+    intro n d k h
+    unfold goP at h ⊢
+    split
+    · rfl
+    · rename_i hc
+      rw [if_neg hc] at h
+      exact ih _ _ _ (by omega)
+
+theorem tolE_eq_tol (x e : Nat) (h : e ≤ 4092) : tolE x e = tol x := by
+  unfold tolE tol
+  have h1 : max 8192 (2 * e + 8) = 8192 := by omega
+  rw [h1]
+  have : x * 8192 / 2 ^ 53 = x / 2 ^ 40 := by
+    have h2 : (2 : Nat) ^ 53 = 8192 * 2 ^ 40 := by decide
+    rw [h2, Nat.mul_comm x 8192]
+    exact Nat.mul_div_mul_left _ _ (by decide)
+  omega
+
+theorem nearE_spec {v x e : Nat} (h : nearE v x e = true) : v ≤ x + tolE x e ∧ x ≤ v + tolE x e := by
+  simpa [nearE] using h
+
 /-! ## floor characterisation -/
 
 theorem raw_floor (cfg : Cfg) (hv : cfg.Valid) (a : Nat) :
@@ -234,15 +301,15 @@ theorem policy_monotone_aux (k : Kind) (hv : KindValid k) (a b va vb : Nat) (hab
   | rand cfg fn fd => simp [Kind.base] at ha hb; rw [← ha, ← hb]; exact ideal_mono cfg hv hab
 
 theorem allowed_choice_sound_aux (cfg : Cfg) (hv : cfg.Valid) (a v : Nat) (h : allowedExp cfg a v = true) :
-    v ≤ cfg.capNs ∧ v ≤ ideal cfg a + tol (ideal cfg a) ∧ ideal cfg a ≤ v + tol (ideal cfg a) := by
+    v ≤ cfg.capNs ∧ v ≤ ideal cfg a + tolE (ideal cfg a) (effExp cfg a) ∧ ideal cfg a ≤ v + tolE (ideal cfg a) (effExp cfg a) := by
   unfold allowedExp at h
-  rw [idealExec_eq cfg hv] at h
+  rw [idealExecP_fst, idealExec_eq cfg hv] at h
   split at h
   · have hv' : v = ideal cfg a := by simpa using h
     subst hv'
     exact ⟨ideal_capped_aux cfg a, Nat.le_add_right _ _, Nat.le_add_right _ _⟩
   · simp at h
-    exact ⟨h.1, near_spec h.2⟩
+    exact ⟨h.1, nearE_spec h.2⟩
 
 theorem jittered_ideal_bounded_aux (cfg : Cfg) (a pct r s : Nat) (hp : pct ≤ 100) (hr : r ≤ s) :
     jittered (ideal cfg a) pct r s ≤ 2 * cfg.capNs := by
@@ -304,10 +371,10 @@ theorem clampFactor_id (fn fd : Nat) (h : fn ≤ fd) : clampFactor fn fd = (fn, 
   · rfl
 
 theorem allowed_rand_sound_aux (cfg : Cfg) (hv : cfg.Valid) (fn fd a v : Nat) (h : allowedRand cfg fn fd a v = true) :
-    jitterLoQ (ideal cfg a) fn fd ≤ v + tol (ideal cfg a) + 1 ∧
-    v ≤ jitterHiQ (ideal cfg a) fn fd + 2 * tol (ideal cfg a) + 1 ∧ v ≤ durMax := by
+    jitterLoQ (ideal cfg a) fn fd ≤ v + tolE (ideal cfg a) (effExp cfg a) + 1 ∧
+    v ≤ jitterHiQ (ideal cfg a) fn fd + 2 * tolE (ideal cfg a) (effExp cfg a) + 1 ∧ v ≤ durMax := by
   unfold allowedRand at h
-  rw [idealExec_eq cfg hv] at h
+  rw [idealExecP_fst, idealExec_eq cfg hv] at h
   simp at h
   exact ⟨h.1.1, h.1.2, h.2⟩
 
